@@ -185,3 +185,45 @@ func ZZC08Reg(n int) {
 		zzv.Assert(zzJoin(r.Routes()["/a"]) == before, "reg:rejected-registration-changed-the-method-set")
 	}
 }
+
+// ZZC08Rec(n): HEAD of a route whose GET handler panics, on a router with a recovery option that
+// writes an error page: same status as GET, no body bytes. n = max parameter length.
+func ZZC08Rec(n int) {
+	opt := WithStatusRecovery(503)
+	if zzv.Choice("recovery", 2) == 1 {
+		opt = WithRecovery(func(w http.ResponseWriter, msg any) {
+			w.Header().Set("X-E", "1")
+			w.WriteHeader(500)
+			w.Write([]byte("error page"))
+		})
+	}
+	// the handler panics before it has written anything
+	call := func(w http.ResponseWriter, r *http.Request, rt types.Route, h *hnd) {
+		zzO.calls++
+		zzO.id = h.id
+		if h.id == 7 {
+			panic("boom")
+		}
+		zzCall(w, r, rt, h)
+	}
+	r := NewRouter[*hnd]("r", call, &hnd{id: id404}, zzB405, zzBOpt, opt)
+	r.Handle("/g/{x}", &hnd{id: 7}, nil, "GET")
+	path := "/g/" + zzv.Bytes("x", n)
+	zzBoomArmed, zzBoomVal = true, "boom"
+	og := &zzObs{}
+	zzO = og
+	wg := newW()
+	r.ServeHTTP(wg, zzReq("GET", path))
+	zzFinish(wg)
+	oh := &zzObs{}
+	zzO = oh
+	wh := newW()
+	r.ServeHTTP(wh, zzReq("HEAD", path))
+	zzFinish(wh)
+	zzBoomArmed = false
+	zzv.Cover("head-of-a-panicking-handler")
+	zzv.Assert(og.id == 7 && oh.id == 7, "head-recovery:GET-handler-not-run")
+	zzv.Assert(wg.n > 0, "head-recovery:GET-error-page-missing")
+	zzv.Assert(wh.status == wg.status, "head-recovery:status-differs-from-GET")
+	zzv.Assert(wh.n == 0, "head-recovery:body-bytes-reached-the-client")
+}
